@@ -56,7 +56,17 @@ class Node:
         env["PYTHONDONTWRITEBYTECODE"] = "1"
         cwd = "/"
         if env_spec["cwd"] in ("tmp", "deleted"):
-            self.tmp = tempfile.mkdtemp(prefix="pyab-node-")
+            # deterministic name (a program that folds its cwd into an assignment must replay exactly)
+            base = os.path.join(tempfile.gettempdir(), "pyab-node-%d" % env_spec.get("entropy", 0))
+            self.tmp = base
+            k = 0
+            while True:
+                try:
+                    os.mkdir(self.tmp)
+                    break
+                except FileExistsError:
+                    k += 1
+                    self.tmp = f"{base}-{k}"
             cwd = self.tmp
             if env_spec["cwd"] == "deleted":
                 env["VERIF_NODE_RMCWD"] = "1"
